@@ -105,17 +105,24 @@ def transform_fault_check(p):
     bad_w = pos[len(pos) // 2]
     wrong = len(stream) % 2 == 0
 
+    wrong_val = ["oops", "6.0", None, [1.0], "1e3", complex(2.0, 0.0)][(len(stream) // 2) % 6]
+
     def f(w):
         if w == bad_w:
             if wrong:
-                return "oops"
+                return wrong_val
+            raise ZeroDivisionError("transform failed")
+        return w
+
+    def f_raise(w):
+        if w == bad_w:
             raise ZeroDivisionError("transform failed")
         return w
 
     real_count = gen.hg.Count
 
-    def build_t():
-        gen.hg.Count = lambda *a, **kw: real_count(f)
+    def build_t(fn=f):
+        gen.hg.Count = lambda *a, **kw: real_count(fn)
         try:
             return gen.build(spec)
         finally:
@@ -140,11 +147,25 @@ def transform_fault_check(p):
         da, db = execs.canon_doc(a.toJson()), execs.canon_doc(b.toJson())
     except Exception as e:  # noqa: BLE001
         return ["Counts whose transform %s for weight %r: after %d raising fills the aggregator cannot be serialised: %s: %s"
-                % ("returns a string" if wrong else "raises", bad_w, raised, type(e).__name__, str(e)[:160])]
+                % (("returns %r" % (wrong_val,)) if wrong else "raises", bad_w, raised, type(e).__name__, str(e)[:160])]
+    if wrong:
+        # a transform returning a non-number must behave exactly like one that raises for the same weight: the fill raises and
+        # leaves no trace (decided against the twin whose transform raises, not against what the implementation accepts)
+        c = build_t(f_raise)
+        for d, w in stream:
+            try:
+                c.fill(d, w)
+            except Exception:  # noqa: BLE001
+                pass
+        dc = execs.diff_doc(da, execs.canon_doc(c.toJson()))
+        if dc:
+            return ["Counts whose transform returns the non-number %r for weight %r: the stream filled under try/except differs from "
+                    "the same stream with a transform that raises for that weight (the wrong-typed result was accepted or left a trace): %s"
+                    % (wrong_val, bad_w, dc)]
     dd = execs.diff_doc(da, db)
     if dd:
         return ["Counts whose transform %s for weight %r: the stream filled under try/except (%d fills raised) differs from the "
-                "aggregate of the records whose fill does not raise: %s" % ("returns a string" if wrong else "raises", bad_w, raised, dd)]
+                "aggregate of the records whose fill does not raise: %s" % (("returns %r" % (wrong_val,)) if wrong else "raises", bad_w, raised, dd)]
     return []
 
 
